@@ -438,3 +438,63 @@ func init() {
 		}
 	})
 }
+
+// cutTxnState removes the edges on which `txn.GetState() ==/!= ABORTED` says that the state is ABORTED
+// (cutAborted=true) or is not ABORTED (cutAborted=false), whatever the spelling.
+func cutTxnState(w *World, cutAborted bool) EdgeCut {
+	a := w.A()
+	abortedV, _ := constant.Int64Val(w.Const("storage/access", "ABORTED").Val())
+	return func(b *ssa.BasicBlock, succ int) bool {
+		i := blockIf(b)
+		if i == nil {
+			return false
+		}
+		v, neg := condBase(i.Cond)
+		bo, ok := v.(*ssa.BinOp)
+		if !ok || (bo.Op != token.NEQ && bo.Op != token.EQL) {
+			return false
+		}
+		isState := func(x ssa.Value) bool { return IsCallTo(a.TxnGetState)(stripConv(x)) }
+		isAb := func(x ssa.Value) bool {
+			cv, ok := constOf(x)
+			if !ok {
+				return false
+			}
+			iv, ok := constant.Int64Val(cv)
+			return ok && iv == abortedV
+		}
+		if !((isState(bo.X) && isAb(bo.Y)) || (isState(bo.Y) && isAb(bo.X))) {
+			return false
+		}
+		binTrue := (succ == 0) != neg
+		edgeAborted := binTrue == (bo.Op == token.EQL)
+		return edgeAborted == cutAborted
+	}
+}
+
+func init() {
+	reg("C05-R3", "no write on behalf of an already aborted transaction: in UpdateExecutor.Next and DeleteExecutor.Next every path from the child's Next() to the heap mutation (TableHeap.UpdateTuple / MarkDelete) passes the not-ABORTED side of a test of the transaction state — a scan child reports a lost lock race only through the state, and the heap does not record the write of an ABORTED transaction in its write set, so such a write would survive the rollback", func(w *World, r *Report) {
+		a := w.A()
+		execNext := w.MethodObj("execution/executors", "Executor", "Next")
+		notAb := cutTxnState(w, false)
+		for _, it := range []struct {
+			typ string
+			mut *types.Func
+		}{{"UpdateExecutor", a.THUpdate}, {"DeleteExecutor", a.THMarkDelete}} {
+			fn := w.Fn("execution/executors", it.typ, "Next")
+			var starts []ssa.Instruction
+			for _, b := range fn.Blocks {
+				for _, in := range b.Instrs {
+					if c, ok := in.(ssa.CallInstruction); ok && CalleeObj(c) == execNext {
+						starts = append(starts, in)
+					}
+				}
+			}
+			r.Floor(it.typ+".Next child Next() calls", len(starts), 1)
+			n := countCutEdges(fn, []EdgeCut{notAb})
+			r.Floor(it.typ+".Next tests of the transaction state", n, 1)
+			wit := (&PathQ{Fn: fn, Cut: []EdgeCut{notAb}, Target: InstrCallsObj(it.mut)}).FromAfter(starts)
+			r.Check(wit == nil, it.typ+".Next:no-write-for-aborted-txn", "the row delivered by the child is written only after the transaction state was found not ABORTED", "path from child.Next() to "+it.mut.Name()+" without a state test: "+w.DescribeWitness(fn, wit))
+		}
+	})
+}
